@@ -610,7 +610,8 @@ def oracle_delta(ctx, case):
   if not d1 > d2:
     fails.append(("ff_delta", {"law": "strict_decreasing"},
                   "trial %r < %r but delta %r <= %r (ref %r)" % (t1, t2, d1, d2, ref)))
-  ctx.tick(case, labels=labels, nontrivial=(t1 != ref and t2 != ref))
+  ctx.tick(case, labels=list(dict.fromkeys(labels)),
+           nontrivial=(t1 != ref and t2 != ref))
   return fails
 
 
